@@ -2,6 +2,7 @@ package harness
 
 import (
 	"fmt"
+	"strings"
 
 	"pgregory.net/rapid"
 )
@@ -1165,6 +1166,17 @@ func (g *gen) focusOn(op Op) {
 	for _, l := range mf.Leaves {
 		if _, ok := pool[l.Key.T]; ok && l.Key.T != "" {
 			g.focus = append(g.focus, l.Key)
+		}
+	}
+	// declared hostile In/Out structs: the keys their fields would stand for
+	for _, r := range op.F.R {
+		if strings.HasPrefix(r.Host, "HOutUnexp") {
+			g.focus = append(g.focus, MKey{T: "T1"}, MKey{T: "T0", Group: "g"}, MKey{T: "T0", Name: "a"})
+		}
+	}
+	for _, p := range op.F.P {
+		if strings.HasPrefix(p.Host, "HInUnexp") {
+			g.focus = append(g.focus, MKey{T: "T1"}, MKey{T: "T0", Group: "g"}, MKey{T: "T0", Name: "a"})
 		}
 	}
 }
